@@ -324,10 +324,6 @@ def spread_case(rng, db, rows=None):
                   "pe": ["pe"], "pressure": ["pressure", "press"], "description": ["description", "desc"], "density": ["density", "dens"]}
     cols = ["Number"] + special + list(elems)
     rng.shuffle(cols)
-    if cols[0] == "pressure":
-        # known finding `spread-first-heading-pressure`: a heading row that STARTS with pressure/press is taken for a block-level
-        # option line and the whole spreadsheet is lost; exactly this case is judged by its own probe, not here
-        cols.append(cols.pop(0))
     heads = [rng.choice(head_spell[c]) if c in head_spell else c for c in cols]
     ucells = []
     for c in cols:
